@@ -16,9 +16,11 @@ import (
 
 var (
 	genKeys = map[string][]string{
-		"ann": {"k1", "k2", "k3", "io.x/y", "k5"},
-		"env": {"E1", "E2", "E3", "PATH", "E5"},
-		"mnt": {"/m1", "/m1/sub", "/m2", "/data", "/m1/sub/deep"},
+		// some strings are keys of several families at once (a mount at a device's path, an annotation named like
+		// a variable): the families are independent of each other
+		"ann": {"k1", "k2", "k3", "io.x/y", "E1"},
+		"env": {"E1", "E2", "E3", "PATH", "k1"},
+		"mnt": {"/m1", "/m1/sub", "/m2", "/dev/d1", "/dev/d2", "/m1/sub/deep"},
 		"dev": {"/dev/d1", "/dev/d2", "/dev/d3", "/dev/null0"},
 		"rlim": {"RLIMIT_NOFILE", "RLIMIT_CORE", "RLIMIT_AS", "RLIMIT_NPROC"},
 		"cdi":  {"vendor.com/dev=a", "vendor.com/dev=b", "other.io/gpu=0"},
